@@ -242,9 +242,8 @@ def run_sequence(inp):
             kw['quirks']['rmcp_ignore_sdu_length'] = True
     intf = U.MAKERS[kind](script, **kw)
     queue0 = [bytes.fromhex(x) for x in inp.get('queue0', [])]
-    if kind == 'rmcp':
-        for f in queue0:
-            intf._q.put(f)
+    if kind == 'rmcp' and queue0:
+        U.rmcp_prefill(intf, queue0)        # optional: only if the interface has a receive queue
     recs = []
     targets = {}      # one Target object per (address, routing) for the whole history
 
@@ -402,8 +401,14 @@ def _sweep_shard(job):
                 kw = dict(max_retries=mr, next_seq=seq0, slave=slave)
                 if kind == 'rmcp' and ign:
                     kw['quirks'] = {'rmcp_ignore_rq_seq': True}
-                intf = U.MAKERS[kind](script, **kw)
-                result = U.call(intf, rq[0], None, rq[1], rq[2], rq[3], payload)
+                try:
+                    intf = U.MAKERS[kind](script, **kw)
+                    result = U.call(intf, rq[0], None, rq[1], rq[2], rq[3], payload)
+                except U.HarnessTimeout as e:
+                    # a real sleep / blocking call escaped the substitution: harness limitation, not a hang
+                    fails['__limit__'] = ('%s: %s word %s max_retries=%d' % (e, kind, [SYM_NAMES[k] for k in w], mr),
+                                          {'kind': kind, 'word': [SYM_NAMES[k] for k in w], 'mr': mr, 'rq': rq})
+                    return job, {}, fails, runs
                 runs += 1
                 sent = U.sent_of(kind, intf)
                 if sent:
@@ -412,7 +417,7 @@ def _sweep_shard(job):
                     if any(s != tx for s in sent):
                         codes.append(999998)
                         continue
-                qlen = len(intf._q.queue) if kind == 'rmcp' else 0
+                qlen = len(U.rmcp_queue(intf)) if kind == 'rmcp' else 0
                 unread = script.unread()
                 codes.append(((out_code(result) * 16 + len(sent)) * 16 + qlen) * 16 + unread)
                 consumed = events[:len(events) - unread]
@@ -491,9 +496,14 @@ def run(ctx):
         jobs += [j for j in sweep_jobs(rng, [0, 1, 5, 7, 8, 9], 7) if len(j[2]) + j[3] == 7]
     sweep_terms, sweep_meta = [], []
     nruns = 0
+    limits = []      # wall-clock guard hits (harness limitation)
     with multiprocessing.get_context('fork').Pool(C.NCPU) as pool:
         for job, out, f, runs in pool.imap_unordered(_sweep_shard, jobs, chunksize=1):
             nruns += runs
+            if '__limit__' in f:
+                limits.append(f.pop('__limit__'))
+                pool.terminate()
+                break
             seed, alpha, prefix, n, budgets, _forced = job
             for ci, ((kind, ign), (m, codes)) in enumerate(out.items()):
                 D.add(('sweep', kind, ign, alpha, prefix, n), True, 'sweep-%s-len%d' % (kind, len(prefix) + n))
@@ -515,6 +525,9 @@ def run(ctx):
 
     # ---- sequences of 1..4 requests on one interface object (explicit frames)
     nseq = 700 if q else 6000
+    # the RMCP receive queue is an optional observation (private name): without it nothing is pre-filled
+    has_queue = U.rmcp_prefill(U.make_rmcp(U.Script([])), [])
+    res.extra['rmcp_queue_observable'] = has_queue
     ext = list(range(NSYM))
     for i in range(nseq):
         kind = KINDS[i % 3]
@@ -594,12 +607,18 @@ def run(ctx):
             reqs.append({'rq': rq, 'routing': routing, 'p': p.hex(),
                          'events': [[e[0]] + ([e[1].hex()] if e[0] == 'F' else []) for e in ev]})
             hist.append(h)
-        if kind == 'rmcp' and not probes and rng.random() < 0.2:
+        if kind == 'rmcp' and not probes and has_queue and rng.random() < 0.2:
             h0 = request_header(kind, slave, (seq0 + 1) % 64, reqs[0]['rq'], reqs[0]['routing'])
             queue0 = [sym_event(h0, rng.choice([0, 1, 2, 5, 7, 11, 8]))[1].hex() for _ in range(rng.randrange(1, 4))]
         inp = {'kind': kind, 'mr': mr, 'ign': ign, 'slave': slave, 'seq0': seq0, 'queue0': queue0, 'reqs': reqs,
                'sdu_quirk': kind == 'rmcp' and rng.random() < 0.3}
-        recs, fseq, unread = run_sequence(inp)
+        if limits:
+            break
+        try:
+            recs, fseq, unread = run_sequence(inp)
+        except U.HarnessTimeout as e:
+            limits.append(('%s: %s history of %d step(s)' % (e, kind, len(reqs)), inp))
+            break
         res.evaluations += len(reqs)
         exp = C.c_list(['(%s, %s, %s)' % (c_res(r['result']), C.c_list([C.c_hex(s) for s in r['sent']]), C.c_nat(r['qlen']))
                         for r in recs])
@@ -636,6 +655,11 @@ def run(ctx):
     res.extra['t_coq'] = _t.time()
     res.mismatches = [{'case': meta[i], 'term': terms[i][:800]} for i in failing[:30]]
     res.corr_errors = errors + serr
+    for msg, case in limits:
+        res.corr_errors.append(('HARNESS LIMITATION (wall-clock guard, no failing input): ' + msg,
+                                'a driven call did not return within %.0f s: a real sleep or blocking call escaped the '
+                                'substituted clock / transport. case: %r' % (U.GUARD_S, case)))
+    U.uninstall()
     # locate the first disagreeing words inside failing sweep shards
     if sf:
         wterms, wmeta = [], []
